@@ -328,14 +328,14 @@ Proof.
 Qed.
 
 (* what follows a comparison does not continue the guard chain *)
-Definition stops_guards (R : list token) : Prop := forall fuel, 0 < fuel -> peg_guards fuel R = Ok [] R.
+Definition stops_guards (k : nat) (R : list token) : Prop := forall fuel, k < fuel -> peg_guards fuel R = Ok [] R.
 
 Definition guards_size (gs : list guard) : nat := fold_right (fun g n => S (gsize (gterm_of g)) + n) 0 gs.
 
 Lemma ifollow_guards gs R : ifollow R -> ifollow (print_guards false gs ++ R).
 Proof. destruct gs as [|[rl t] gs]; [exact (fun H => H)|]. intros _. reflexivity. Qed.
 
-Lemma peg_guards_ok gs : forall fuel R, guards_size gs < fuel -> ifollow R -> stops_guards R ->
+Lemma peg_guards_ok gs k : forall fuel R, guards_size gs + k < fuel -> ifollow R -> stops_guards k R ->
   peg_guards fuel (print_guards false gs ++ R) = Ok gs R.
 Proof.
   induction gs as [|[rl t] gs IH]; intros fuel R Hf HF HS.
@@ -353,7 +353,11 @@ Definition asize (a : aformula) : nat :=
   | ACmp t gs => S (gsize t + guards_size gs)
   end.
 
-Definition afollow (R : list token) : Prop := ifollow R /\ no_lparen R /\ stops_guards R.
+Definition aends_term (a : aformula) : bool := match a with ACmp _ _ | AAtom _ [] => true | _ => false end.
+(* what may follow an atomic formula: no binary operator, no "(", and - when the formula ends in a general
+   term - nothing that continues the chain of guards (k: fuel needed to find that out) *)
+Definition afollow (a : aformula) (k : nat) (R : list token) : Prop :=
+  ifollow R /\ no_lparen R /\ (aends_term a = true -> stops_guards k R).
 
 Lemma print_gterm_head t : exists tok rest, print_gterm false t = tok :: rest /\
   match tok with TTrue | TFalse => False | _ => True end.
@@ -363,7 +367,7 @@ Proof.
   destruct tok; cbn in H; tauto.
 Qed.
 
-Theorem atomic_rt a fuel R : asize a < fuel -> (match a with ACmp _ [] => False | _ => True end) -> afollow R ->
+Theorem atomic_rt a k fuel R : asize a + k < fuel -> (match a with ACmp _ [] => False | _ => True end) -> afollow a k R ->
   peg_atomic fuel (print_atomic false a ++ R) = Ok a R.
 Proof.
   intros Hf Hne (HF & HL & HS). destruct fuel as [|f]; [lia|].
@@ -372,7 +376,7 @@ Proof.
     assert (EC : peg_comparison (S f) (print_atom false p ts ++ R) = Fail).
     { unfold peg_comparison. destruct ts as [|t ts].
       - cbn [print_atom app]. unfold peg_gterm. rewrite peg_iterm_fail_tok by exact I.
-        rewrite HS by lia. reflexivity.
+        rewrite (HS eq_refl) by (cbn [asize args_size fold_right] in Hf; lia). reflexivity.
       - cbn [print_atom app]. unfold peg_gterm. rewrite peg_iterm_fail_tok by exact I. reflexivity. }
     assert (EA : peg_atom (S f) (print_atom false p ts ++ R) = Ok (AAtom p ts) R).
     { apply peg_atom_ok; [cbn [asize] in Hf; lia|exact HL]. }
@@ -381,7 +385,7 @@ Proof.
   - destruct gs as [|g gs]; [tauto|]. cbn [asize] in Hf.
     assert (EC : peg_comparison (S f) (print_gterm false t ++ print_guards false (g :: gs) ++ R) = Ok (ACmp t (g :: gs)) R).
     { unfold peg_comparison. rewrite gterm_rt; [|lia|apply ifollow_guards; exact HF].
-      rewrite peg_guards_ok; [reflexivity|lia|exact HF|exact HS]. }
+      rewrite (peg_guards_ok (g :: gs) k); [reflexivity|lia|exact HF|exact (HS eq_refl)]. }
     rewrite <- app_assoc. unfold peg_atomic. rewrite EC.
     destruct (print_gterm_head t) as (tok & rest & E & H). rewrite E. cbn [app].
     destruct tok; try tauto; reflexivity.
